@@ -162,6 +162,26 @@ Definition publish_sent (s : mq) (b : bld) : mq * qout :=
                      w_resps := map (fun x => (fst x, (match aget (fst x) (b_status b) with Some c => c | None => 14 end, snd x))) (b_resp b);
                      w_blocks := map fst (b_blocks b) |} ] |}).
 
+(* extractOutgoingMessage first drops the builders nothing was added to *)
+Fixpoint skip_empty (bs : list bld) : list bld :=
+  match bs with
+  | b :: rest => if bld_empty b then skip_empty rest else bs
+  | [] => []
+  end.
+
+(* the drain loop of the done branch: report every queued builder as failed *)
+Fixpoint drain (fuel : nat) (s : mq) (acc : qout) : mq * qout :=
+  match fuel with
+  | O => (s, acc)
+  | S f =>
+      match skip_empty (builders s) with
+      | [] => (set_fields s [] (alloc s) (has_sender s) (work s) (done s) (ph s) (closed s), acc)
+      | b :: rest =>
+          let s1 := set_fields s rest (alloc s) (has_sender s) (work s) (done s) (ph s) (closed s) in
+          let '(s2, o) := publish_error s1 b in drain f s2 (out_app acc o)
+      end
+  end.
+
 (* the goroutine runs from the top of its loop until it parks; fuel bounds the number of loop turns *)
 Fixpoint run_loop (fuel : nat) (s : mq) (acc : qout) : mq * qout :=
   match fuel with
@@ -170,36 +190,21 @@ Fixpoint run_loop (fuel : nat) (s : mq) (acc : qout) : mq * qout :=
       match work s, done s with
       | true, true => (set_fields s (builders s) (alloc s) (has_sender s) true true PSelect (closed s), acc)
       | true, false =>
-          (* sendMessage: extract the head builder *)
-          match builders s with
+          (* sendMessage: extract the first non-empty builder *)
+          match skip_empty (builders s) with
           | [] => run_loop f (set_fields s [] (alloc s) (has_sender s) false false PIdle (closed s)) acc
           | b :: rest =>
               let wk := match rest with [] => false | _ => true end in
-              let s1 := set_fields s rest (alloc s) (has_sender s) wk false PIdle (closed s) in
-              if bld_empty b then run_loop f s1 acc
-              else
-                let acc1 := out_app acc {| q_events := evs EvQueued b; q_wire := [] |} in
-                if has_sender s then (set_fields s1 rest (alloc s) true wk false (PSend b O) (closed s), acc1)
-                else (set_fields s1 rest (alloc s) false wk false (PConnect b O true) (closed s), acc1)
+              let acc1 := out_app acc {| q_events := evs EvQueued b; q_wire := [] |} in
+              if has_sender s then (set_fields s rest (alloc s) true wk false (PSend b O) (closed s), acc1)
+              else (set_fields s rest (alloc s) false wk false (PConnect b O true) (closed s), acc1)
           end
       | false, true =>
-          (* done, nothing signalled: close the sender, release the peer's memory, exit *)
-          (set_fields s (builders s) 0 false false true PExited (closed s), acc)
+          (* done: report everything still queued as failed, close the sender, release the peer's
+             memory, exit *)
+          let '(s1, o) := drain (S (length (builders s))) s acc in
+          (set_fields s1 (builders s1) 0 false false true PExited (closed s1), o)
       | false, false => (set_fields s (builders s) (alloc s) (has_sender s) false false PIdle (closed s), acc)
-      end
-  end.
-
-(* the drain loop of the done branch when a signal was pending: report every queued builder as failed *)
-Fixpoint drain (fuel : nat) (s : mq) (acc : qout) : mq * qout :=
-  match fuel with
-  | O => (s, acc)
-  | S f =>
-      match builders s with
-      | [] => (s, acc)
-      | b :: rest =>
-          let s1 := set_fields s rest (alloc s) (has_sender s) (work s) (done s) (ph s) (closed s) in
-          if bld_empty b then (s1, acc)          (* extract reports errEmptyMessage: the drain stops *)
-          else let '(s2, o) := publish_error s1 b in drain f s2 (out_app acc o)
       end
   end.
 
@@ -213,6 +218,7 @@ Definition do_build (s : mq) (r : req) (ops : list top) : mq * qout :=
   let s0 := {| builders := builders s; next_topic := next_topic s; alloc := alloc s; has_sender := has_sender s;
                work := work s; done := done s; ph := ph s; closed := closed s; miss := miss' |} in
   if mem_req r (closed s) then (s0, out_nil)                        (* execute: stream closed, nothing happens *)
+  else if done s then (s0, out_nil)       (* buildMessage refuses once done is closed; the reservation is returned *)
   else
     let size := ops_size ops in
     let need_new := match rev (builders s) with
@@ -267,8 +273,14 @@ Definition qstep (s : mq) (l : qlabel) : mq * qout :=
   | LNet ok =>
       match ph s with
       | PConnect b i initial =>
-          if ok then (set_fields s (builders s) (alloc s) true (work s) (done s) (PSend b (if initial then O else S i)) (closed s), out_nil)
-               (* reconnected after a failed attempt i: the loop moves to attempt i+1, or gives up *)
+          if ok then
+            if initial then (set_fields s (builders s) (alloc s) true (work s) (done s) (PSend b O) (closed s), out_nil)
+            else if Nat.ltb (S i) max_retries
+            then (* reconnected after failed attempt i: the retry loop moves on to attempt i+1 *)
+              (set_fields s (builders s) (alloc s) true (work s) (done s) (PSend b (S i)) (closed s), out_nil)
+            else (* retries expended: the message is reported failed (the new sender is kept) *)
+              let '(s1, o) := publish_error (set_fields s (builders s) (alloc s) true (work s) (done s) PIdle (closed s)) b in
+              run_loop (loop_fuel s1) s1 o
           else
             let '(s1, o) := publish_error (set_fields s (builders s) (alloc s) false (work s) (done s) PIdle (closed s)) b in
             (* an initial connect failure makes the queue shut itself down *)
@@ -286,4 +298,134 @@ Definition qstep (s : mq) (l : qlabel) : mq * qout :=
             else (set_fields s0 (builders s0) (alloc s0) false (work s0) (done s0) (PConnect b i false) (closed s0), out_nil)
       | _ => (s, out_nil)
       end
+  end.
+
+(* ============================================================================================ *)
+(* Observations at the points where the queue goroutine is parked, and the harness step (a label plus
+   a hint telling which way an ambiguous select went). *)
+Definition phase_code (p : phase) : N :=
+  match p with PIdle => 0 | PConnect _ _ _ => 1 | PSend _ _ => 2 | PSelect => 3 | PExited => 4 end.
+
+Definition inflight_size (p : phase) : N :=
+  match p with PConnect b _ _ => b_blk b | PSend b _ => b_blk b | _ => 0 end.
+
+Definition qstep_h (s : mq) (l : qlabel) (hint : bool) : mq * qout :=
+  let '(s1, o1) := qstep s l in
+  match ph s1 with
+  | PSelect =>
+      let '(s2, o2) := qstep s1 (LPick hint) in
+      match ph s2 with
+      | PSelect => let '(s3, o3) := qstep s2 (LPick hint) in (s3, out_app (out_app o1 o2) o3)
+      | _ => (s2, out_app o1 o2)
+      end
+  | _ => (s1, o1)
+  end.
+
+(* events of one request, in order: (kind, topic) with kind 0 queued, 1 sent, 2 error, 3 closed *)
+Definition ev_req (e : qev) : req := match e with EvQueued r _ | EvSent r _ | EvError r _ | EvClosed r _ => r end.
+Definition ev_code (e : qev) : N * N :=
+  match e with EvQueued _ t => (0, t) | EvSent _ t => (1, t) | EvError _ t => (2, t) | EvClosed _ t => (3, t) end.
+Definition events_for (r : req) (l : list qev) : list (N * N) := map ev_code (filter (fun e => N.eqb (ev_req e) r) l).
+
+Fixpoint insert_n (x : N) (l : list N) : list N :=
+  match l with [] => [x] | y :: r => if x <=? y then x :: l else y :: insert_n x r end.
+Definition sort_n (l : list N) : list N := fold_right insert_n [] l.
+Fixpoint insert_key {A} (x : N * A) (l : list (N * A)) : list (N * A) :=
+  match l with [] => [x] | y :: r => if fst x <=? fst y then x :: l else y :: insert_key x r end.
+Definition sort_key {A} (l : list (N * A)) : list (N * A) := fold_right insert_key [] l.
+
+Record qobs := {
+  qo_alloc : N;                                   (* Allocator.AllocatedForPeer *)
+  qo_sizes : list N;                              (* block size of every queued builder (verif hook) *)
+  qo_nonempty : N;                                (* number of queued builders holding content (verif hook) *)
+  qo_phase : N;
+  qo_events : list (list (N * N));                (* per request of the universe: its events during this step *)
+  qo_wire : list (list (req * (N * list (link * bool))) * list link)   (* messages handed to SendMsg *)
+}.
+
+Definition wire_obs (w : wire) : list (req * (N * list (link * bool))) * list link :=
+  (sort_key (w_resps w), sort_n (w_blocks w)).
+
+Definition q_observe (univ : list req) (s : mq) (o : qout) : qobs :=
+  {| qo_alloc := alloc s; qo_sizes := map b_blk (builders s);
+     qo_nonempty := N.of_nat (length (filter (fun b => negb (bld_empty b)) (builders s)));
+     qo_phase := phase_code (ph s);
+     qo_events := map (fun r => events_for r (q_events o)) univ;
+     qo_wire := map wire_obs (q_wire o) |}.
+
+(* a message handed to SendMsg is only observable when the call returns ok in the model (publish_sent);
+   the harness likewise reports a message when its SendMsg call is released with ok *)
+Fixpoint q_run (univ : list req) (s : mq) (ls : list (qlabel * bool)) : list qobs :=
+  match ls with
+  | [] => []
+  | (l, h) :: r => let '(s', o) := qstep_h s l h in q_observe univ s' o :: q_run univ s' r
+  end.
+
+Definition pairnn_eqb (a b : N * N) : bool := N.eqb (fst a) (fst b) && N.eqb (snd a) (snd b).
+Definition lb_eqb (a b : link * bool) : bool := N.eqb (fst a) (fst b) && Bool.eqb (snd a) (snd b).
+Definition resp_eqb (a b : req * (N * list (link * bool))) : bool :=
+  N.eqb (fst a) (fst b) && N.eqb (fst (snd a)) (fst (snd b)) && list_eqb lb_eqb (snd (snd a)) (snd (snd b)).
+Definition wobs_eqb (a b : list (req * (N * list (link * bool))) * list link) : bool :=
+  list_eqb resp_eqb (fst a) (fst b) && list_eqb N.eqb (snd a) (snd b).
+(* per step everything but the subscriber events is compared; events are delivered by the publisher's own
+   goroutine and may be observed a step late, so they are compared per request over the whole history *)
+Definition qobs_eqb (a b : qobs) : bool :=
+  N.eqb (qo_alloc a) (qo_alloc b) && list_eqb N.eqb (qo_sizes a) (qo_sizes b) && N.eqb (qo_nonempty a) (qo_nonempty b) &&
+  N.eqb (qo_phase a) (qo_phase b) && list_eqb wobs_eqb (qo_wire a) (qo_wire b).
+Definition all_events (n : nat) (obs : list qobs) : list (list (N * N)) :=
+  map (fun i => flat_map (fun o => nth i (qo_events o) []) obs) (seq 0 n).
+
+(* ---- the properties on an observed history ---- *)
+(* C15: whenever the goroutine is parked, the peer's accounted memory equals the block bytes of the
+   queued builders plus those of the message in flight; once it has exited, or is idle with nothing
+   queued, it is zero.  The in-flight size is not directly observable: the monitor tracks it from the
+   sizes it saw queued (the head builder's size when a Queued event opens a message). *)
+Definition sum_n (l : list N) : N := fold_right N.add 0 l.
+
+Record qcase := { qc_univ : list req; qc_labels : list (qlabel * bool); qc_obs : list qobs }.
+Definition qcase_agrees (c : qcase) : bool :=
+  let m := q_run (qc_univ c) mq_new (qc_labels c) in
+  list_eqb qobs_eqb m (qc_obs c) &&
+  list_eqb (list_eqb pairnn_eqb) (all_events (length (qc_univ c)) m) (all_events (length (qc_univ c)) (qc_obs c)).
+
+(* C15 monitor: idle or exited with nothing queued means nothing accounted; and accounted memory never
+   drops below what is queued *)
+Definition mon15_obs (o : qobs) : bool :=
+  (sum_n (qo_sizes o) <=? qo_alloc o) &&
+  (if (N.eqb (qo_phase o) 0 || N.eqb (qo_phase o) 4) then N.eqb (qo_alloc o) (sum_n (qo_sizes o)) else true) &&
+  (if N.eqb (qo_phase o) 4 then N.eqb (qo_alloc o) 0 else true).
+Definition qcase_mon15 (c : qcase) : bool := forallb mon15_obs (qc_obs c).
+
+(* C16 monitor: per request, every message that was reported queued gets exactly one of sent / error,
+   then its close, and nothing else for that topic *)
+Fixpoint ev_seq_ok (queued resolved closed_ : list N) (l : list (N * N)) : bool :=
+  (* per subscriber: a message (topic) is announced queued at most once and before its outcome; it gets at
+     most one outcome (sent or error); its close comes after the outcome, once; nothing follows the close *)
+  match l with
+  | [] => true
+  | (k, t) :: r =>
+      let has x := existsb (N.eqb t) x in
+      if N.eqb k 0 then negb (has queued) && negb (has resolved) && negb (has closed_) && ev_seq_ok (t :: queued) resolved closed_ r
+      else if (N.eqb k 1 || N.eqb k 2) then negb (has resolved) && negb (has closed_) && ev_seq_ok queued (t :: resolved) closed_ r
+      else has resolved && negb (has closed_) && ev_seq_ok queued resolved (t :: closed_) r
+  end.
+(* topics announced queued (or given an outcome) that have not been closed *)
+Fixpoint ev_unresolved (open_ : list N) (l : list (N * N)) : list N :=
+  match l with
+  | [] => open_
+  | (k, t) :: r => if N.eqb k 3 then ev_unresolved (filter (fun x => negb (N.eqb x t)) open_) r
+                   else ev_unresolved (if existsb (N.eqb t) open_ then open_ else t :: open_) r
+  end.
+Definition nth_events (i : nat) (obs : list qobs) : list (N * N) :=
+  flat_map (fun o => nth i (qo_events o) []) obs.
+Definition qcase_mon16 (c : qcase) : bool :=
+  forallb (fun i => ev_seq_ok [] [] [] (nth_events i (qc_obs c))) (seq 0 (length (qc_univ c))) &&
+  (* at the end of a history whose goroutine is idle or exited, no queued message is left unreported *)
+  match rev (qc_obs c) with
+  | last :: _ =>
+      if (N.eqb (qo_phase last) 0 || N.eqb (qo_phase last) 4)
+      then N.eqb (qo_nonempty last) 0 && forallb (fun i => match ev_unresolved [] (nth_events i (qc_obs c)) with [] => true | _ => false end)
+                   (seq 0 (length (qc_univ c)))
+      else true
+  | [] => true
   end.
